@@ -1272,8 +1272,16 @@ def _is_dict_copy_idiom(fn: ast.FunctionDef, me: str = "self") -> bool:
                         and isinstance(n.key, ast.Name) and isinstance(g.target.elts[0], ast.Name) and n.key.id == g.target.elts[0].id:
                     has_comp = True
         if isinstance(n, ast.Call) and isinstance(n.func, ast.Attribute) and n.func.attr == "update" \
-                and isinstance(n.func.value, ast.Attribute) and n.func.value.attr == "__dict__":
-            has_update = True
+                and isinstance(n.func.value, ast.Attribute) and n.func.value.attr == "__dict__" and len(n.args) == 1 and not n.keywords \
+                and not (isinstance(n.func.value.value, ast.Name) and n.func.value.value.id == me):
+            # <copy>.__dict__.update(<the comprehension, inline or through the one name it was assigned to>)
+            a0 = n.args[0]
+            if isinstance(a0, ast.DictComp):
+                has_update = True
+            elif isinstance(a0, ast.Name):
+                binds = [x for x in ast.walk(fn) if isinstance(x, (ast.Assign, ast.AnnAssign))
+                         and any(isinstance(t, ast.Name) and t.id == a0.id for t in (x.targets if isinstance(x, ast.Assign) else [x.target]))]
+                has_update = len(binds) == 1 and isinstance(binds[0].value, ast.DictComp)
         if isinstance(n, ast.Call) and isinstance(n.func, ast.Attribute) and n.func.attr == "__new__":
             has_new = True
     rets = [n for n in ast.walk(fn) if isinstance(n, ast.Return)]
@@ -1368,8 +1376,6 @@ def _has_meta(s: str, mode: str) -> bool:
     return any(c in s for c in chars)
 
 
-_GEN_CACHE: Dict[int, bool] = {}
-_TWIN_CACHE: Dict[int, ast.FunctionDef] = {}
 
 
 def _own_nodes(fn: ast.AST):
@@ -1387,10 +1393,12 @@ def _own_nodes(fn: ast.AST):
 def is_generator(fn: ast.AST) -> bool:
     if not isinstance(fn, (ast.FunctionDef, ast.AsyncFunctionDef)):
         return False
-    k = id(fn)
-    if k not in _GEN_CACHE:
-        _GEN_CACHE[k] = any(isinstance(n, (ast.Yield, ast.YieldFrom)) for n in _own_nodes(fn))
-    return _GEN_CACHE[k]
+    # cached on the node itself (an id()-keyed table would outlive the program it was computed for)
+    g = fn.__dict__.get("_sa_is_gen")
+    if g is None:
+        g = any(isinstance(n, (ast.Yield, ast.YieldFrom)) for n in _own_nodes(fn))
+        fn.__dict__["_sa_is_gen"] = g
+    return g
 
 
 class _Collect(ast.NodeTransformer):
@@ -1416,14 +1424,14 @@ class _Collect(ast.NodeTransformer):
 
 def collecting_twin(fn: ast.FunctionDef) -> ast.FunctionDef:
     """`def g(..): ... yield v ...`  ->  `def g(..): __yielded = []; ... __yielded.append(v) ...; return __yielded`."""
-    k = id(fn)
-    if k in _TWIN_CACHE:
-        return _TWIN_CACHE[k]
+    if fn.__dict__.get("_sa_twin") is not None:
+        return fn.__dict__["_sa_twin"]
     import copy as _copy
     for n in _own_nodes(fn):
         if isinstance(n, (ast.Yield, ast.YieldFrom)):
             pass
     tw = _copy.deepcopy(fn)
+    tw.__dict__.pop("_sa_is_gen", None)
     # a yield used as an expression value (x = yield v) is not supported
     for n in _own_nodes(tw):
         if isinstance(n, (ast.Yield, ast.YieldFrom)):
@@ -1441,8 +1449,8 @@ def collecting_twin(fn: ast.FunctionDef) -> ast.FunctionDef:
     ast.copy_location(pre, fn)
     ast.copy_location(post, fn)
     ast.fix_missing_locations(tw)
-    _GEN_CACHE[id(tw)] = False
-    _TWIN_CACHE[k] = tw
+    tw.__dict__["_sa_is_gen"] = False
+    fn.__dict__["_sa_twin"] = tw
     return tw
 
 
